@@ -138,6 +138,9 @@ class Built:
         elif k == 'mapping_to_scalar':
             if node.is_mapping() and node.has_attribute(e[1]):
                 node.set_value(node.get_attribute(e[1]).get_value())
+        elif k == 'need_attr':
+            if node.is_mapping():
+                node.get_attribute(e[1])
         elif k == 'remove_defaults':
             node.remove_attributes_with_default_values(self.classes[e[1]])
         elif k == 'map_to_seq':
@@ -259,6 +262,12 @@ class Built:
             body.append('        raise %s' % (
                 'AssertionError()' if c.get('noargsexc') else
                 'ValueError("constructor of %s refuses")' % name))
+        if c.get('raisesif'):
+            ns['_RV'] = self.pyvalue(c['raisesif'][1])
+            body.append('        if type(%s) is type(_RV) and %s == _RV:' % (
+                c['raisesif'][0], c['raisesif'][0]))
+            body.append('            raise ValueError("constructor of %s '
+                        'refuses this value")' % name)
         ya = c.get('yattrs') or []
         for n in names:
             body.append('        self.%s%s = %s' % ('_p_' if ya else '', n, n))
